@@ -17,15 +17,16 @@ package relay
 //     reservation / non-relayed parties / ACL / below MaxCircuits, voucher, data and time limits,
 //     counters / tags / memory rolled back once the relay has finished with an attempt.
 //
-// TestVerifC11Forward drives single circuits with production-sized limits and payloads around the
-// data limit in each direction and the duration limit.  TestVerifC11Burst races RESERVE / CONNECT
-// requests from many goroutines and audits the relay at quiescence.
+// TestVerifC11Direct (zz_verif_c11_direct_test.go) drives single circuits with production-sized limits
+// and payloads around the data limit in each direction and the duration limit, and races RESERVE /
+// CONNECT requests from many goroutines, auditing the relay at quiescence.
 
 import (
 	"bytes"
 	"encoding/binary"
 	"encoding/json"
 	"fmt"
+	"hash/fnv"
 	"log/slog"
 	"math/rand"
 	"os"
@@ -121,6 +122,9 @@ func vfC11Init() error {
 			g.asn[n] = asnutil.AsnForIPv6(ip)
 		}
 	}
+	for i := 1; i <= 20; i++ {
+		g.addrs[fmt.Sprintf("x%d", i)] = ma.StringCast(fmt.Sprintf("/ip4/198.51.101.%d/tcp/4001", i))
+	}
 	// the model's address classes must be what the asn table says
 	if g.asn["v6a"] == 0 || g.asn["v6a"] != g.asn["v6b"] || g.asn["v6c"] == 0 || g.asn["v6c"] == g.asn["v6a"] || g.asn["v6n"] != 0 {
 		return fmt.Errorf("asn table does not fit the address classes: %v", g.asn)
@@ -194,37 +198,47 @@ func vfC11CfgOf(hdr map[string]any) (*vfC11Cfg, error) {
 }
 
 type vfC11MAtt struct {
-	St  string `json:"st"`
-	Src string `json:"src"`
-	Dst string `json:"dst"`
-	Via string `json:"via"`
-	Ab  string `json:"ab"`
-	T   int    `json:"t"`
-	F   int    `json:"f"`
-	R   int    `json:"r"`
-	Fd  bool   `json:"fd"`
-	Rd  bool   `json:"rd"`
+	St, Src, Dst, Via, Ab string
+	T, F, R               int
+	Fd, Rd                bool
 }
 
 type vfC11MState struct {
-	Up     []string       `json:"up"`
-	Closed bool           `json:"closed"`
-	Ph     int            `json:"ph"`
-	Rsvp   map[string]int `json:"rsvp"`
-	Cons   map[string]struct {
-		Rem int    `json:"rem"`
-		IP  string `json:"ip"`
-	} `json:"cons"`
-	Circ map[string]int  `json:"circ"`
-	TagR map[string]bool `json:"tagR"`
-	TagH map[string]bool `json:"tagH"`
-	Svc  struct {
-		Spans int `json:"spans"`
-		Msgs  int `json:"msgs"`
-		Sin   int `json:"sin"`
-		Sout  int `json:"sout"`
-	} `json:"svc"`
-	Att []vfC11MAtt `json:"att"`
+	Up     []string
+	Closed bool
+	Ph     int
+	Rsvp   map[string]int
+	Cons   map[string][]any // peer -> [rem, ip]
+	Circ   map[string]int
+	TagR   map[string]bool
+	TagH   map[string]bool
+	Svc    []int // spans, msgs, sin, sout
+	Att    []vfC11MAtt
+}
+
+// layout printed by C11_MC!StOf: [up, closed, ph, rsvp, cons, circ, tagR, tagH, svc, att, gl]
+func vfC11ParseState(raw json.RawMessage) (*vfC11MState, error) {
+	var top []json.RawMessage
+	if err := json.Unmarshal(raw, &top); err != nil || len(top) != 11 {
+		return nil, fmt.Errorf("state layout: %v %s", err, string(raw))
+	}
+	m := &vfC11MState{}
+	var atts [][]any
+	for i, dst := range []any{&m.Up, &m.Closed, &m.Ph, &m.Rsvp, &m.Cons, &m.Circ, &m.TagR, &m.TagH, &m.Svc, &atts} {
+		if err := json.Unmarshal(top[i], dst); err != nil {
+			return nil, fmt.Errorf("state field %d: %v in %s", i, err, string(top[i]))
+		}
+	}
+	for _, a := range atts {
+		if len(a) != 10 {
+			return nil, fmt.Errorf("attempt layout %v", a)
+		}
+		str := func(i int) string { s, _ := a[i].(string); return s }
+		num := func(i int) int { f, _ := a[i].(float64); return int(f) }
+		bl := func(i int) bool { b, _ := a[i].(bool); return b }
+		m.Att = append(m.Att, vfC11MAtt{St: str(0), Src: str(1), Dst: str(2), Via: str(3), Ab: str(4), T: num(5), F: num(6), R: num(7), Fd: bl(8), Rd: bl(9)})
+	}
+	return m, nil
 }
 
 // ---------------------------------------------------------------------------------------------
@@ -602,7 +616,9 @@ func (s *vfC11Sys) doReserve(op vfh.Op) {
 		// granted although the model refuses: the L1 clauses below decide
 	}
 	if !granted {
-		if st == "RESERVATION_REFUSED" && held != nil && !held.expiry.Before(now) {
+		why := op.S("why")
+		refusedUnseen := ab && (why == "total" || why == "noip" || why == "ip" || why == "asn") // the client left before the answer
+		if (st == "RESERVATION_REFUSED" || refusedUnseen) && held != nil && !held.expiry.Before(now) {
 			held.refused = true
 		}
 		return
@@ -836,14 +852,28 @@ func (s *vfC11Sys) doConnect(op vfh.Op) {
 	}
 	if att.alive() {
 		att.phase = "hs"
-		if _, busy := s.atts[slot]; busy && exit == "hs" {
-			panic("slot in use")
+	}
+	if exit == "hs" {
+		if old := s.atts[slot]; old != nil {
+			s.forceEnd(old)
 		}
-		if exit == "hs" {
-			s.atts[slot] = att
-		}
+		s.atts[slot] = att
+	} else if att.alive() {
+		// the model has no attempt here: judged above and by audit(); afterwards brought back in step
+		s.mismatch("L2:attempt-liveness", "connect: an attempt the model refuses is still in flight", false, true)
+		s.forceEnd(att)
 	}
 	_ = now
+}
+
+// forceEnd brings the real relay back in step with the model after a disagreement on whether an
+// attempt is over (reported where it was seen): both far ends reset their streams.
+func (s *vfC11Sys) forceEnd(a *vfC11Att) {
+	a.hop.ends[1].Reset()
+	if a.stop != nil {
+		a.stop.ends[1].Reset()
+	}
+	synctest.Wait()
 }
 
 func (s *vfC11Sys) att(op vfh.Op) *vfC11Att {
@@ -899,8 +929,16 @@ func (s *vfC11Sys) endedAsModel(a *vfC11Att, ended bool, where string) {
 	if a.alive() == ended {
 		s.mismatch("L2:attempt-liveness", where+": attempt alive/ended differently from the model", ended, !a.alive())
 	}
-	if !a.alive() {
-		delete(s.atts, a.slot)
+	if ended || !a.alive() {
+		if a.alive() {
+			// first let the L1 monitors see the state as it is, then resynchronise
+			got, _ := s.project()
+			s.audit(got, where+" (attempt the model has ended)")
+			s.forceEnd(a)
+		}
+		if s.atts[a.slot] == a {
+			delete(s.atts, a.slot)
+		}
 	}
 }
 
@@ -945,7 +983,9 @@ func (s *vfC11Sys) dataMonitor(a *vfC11Att) {
 			s.mismatch("data-limit-exceeded/"+dir, "more bytes than Limit.Data were forwarded in one direction", s.cfg.DataLimit, len(a.recv[dir]))
 		}
 		if !bytes.HasPrefix(a.sent[dir], a.recv[dir]) {
-			s.mismatch("relayed-bytes-differ/"+dir, "the bytes received are not a prefix of the bytes sent", a.sent[dir], a.recv[dir])
+			s.mismatch("relayed-bytes-differ/"+dir, "the bytes received are not a prefix of the bytes sent",
+				fmt.Sprintf("%d bytes %x..", len(a.sent[dir]), a.sent[dir][:min(8, len(a.sent[dir]))]),
+				fmt.Sprintf("%d bytes %x..", len(a.recv[dir]), a.recv[dir][:min(8, len(a.recv[dir]))]))
 		}
 	}
 }
@@ -1205,10 +1245,10 @@ func (s *vfC11Sys) project() (vfC11Proj, []string) {
 func (s *vfC11Sys) expected(m *vfC11MState) vfC11Proj {
 	p := vfC11Proj{Closed: m.Closed, Rsvp: m.Rsvp, Cons: map[string][]string{}, Circ: m.Circ, TagR: m.TagR, TagH: m.TagH}
 	for n, c := range m.Cons {
-		p.Cons[n] = []string{fmt.Sprint(c.Rem), c.IP}
+		p.Cons[n] = []string{fmt.Sprint(c[0]), fmt.Sprint(c[1])}
 	}
-	p.Mem = int64(m.Svc.Spans*2*s.cfg.Buf + m.Svc.Msgs*maxMessageSize)
-	p.Sin, p.Sout = m.Svc.Sin, m.Svc.Sout
+	p.Mem = int64(m.Svc[0]*2*s.cfg.Buf + m.Svc[1]*maxMessageSize)
+	p.Sin, p.Sout = m.Svc[2], m.Svc[3]
 	for i, a := range m.Att {
 		if a.St != "free" {
 			p.Busy = append(p.Busy, i+1)
@@ -1278,15 +1318,15 @@ func (s *vfC11Sys) audit(p vfC11Proj, where string) {
 }
 
 func (s *vfC11Sys) compare(raw json.RawMessage) {
-	var m vfC11MState
-	if err := json.Unmarshal(raw, &m); err != nil {
-		panic(fmt.Sprintf("model state: %v %s", err, string(raw)))
+	m, err := vfC11ParseState(raw)
+	if err != nil {
+		panic(err)
 	}
 	got, odd := s.project()
 	for _, o := range odd {
 		s.mismatch("L2:constraints-shape", o, nil, got.Cons)
 	}
-	want := s.expected(&m)
+	want := s.expected(m)
 	// up: the harness's own table, checked for machinery sanity
 	var up []string
 	for _, k := range s.w.order {
@@ -1306,7 +1346,7 @@ func (s *vfC11Sys) compare(raw json.RawMessage) {
 		{"conns", want.Circ, got.Circ}, {"tag-reservation", want.TagR, got.TagR}, {"tag-hop", want.TagH, got.TagH},
 		{"service-memory", want.Mem, got.Mem}, {"service-streams", []int{want.Sin, want.Sout}, []int{got.Sin, got.Sout}},
 		{"attempts", want.Busy, got.Busy}} {
-		if vfh.Canon(f.a) != vfh.Canon(f.b) {
+		if fmt.Sprint(f.a) != fmt.Sprint(f.b) {
 			s.mismatch("L2:state-"+f.n, "projection differs from the model state after "+s.prefix[len(s.prefix)-1].Name(), f.a, f.b)
 		}
 	}
@@ -1357,19 +1397,27 @@ func vfC11RunWalk(t *testing.T, cfg *vfC11Cfg, w vfh.Walk, out *vfh.Result) {
 		defer s.shutdown()
 		s.walk = w.Walk
 		time.Sleep(vfC11Offset)
-		var init vfC11MState
-		if err := json.Unmarshal(w.Init, &init); err != nil {
+		init, err := vfC11ParseState(w.Init)
+		if err != nil {
 			t.Fatalf("init state: %v", err)
 		}
 		for _, l := range init.Up {
 			s.linkUp(l)
 		}
+		prev := []byte(w.Init)
 		for i, st := range w.Steps {
 			s.step = i
 			s.prefix = append(s.prefix, st.Op)
 			s.apply(st.Op)
 			s.compare(st.State)
-			out.Case(cfg.Name + "|" + vfh.Canon(st.Op) + "|" + string(st.State))
+			h := fnv.New64a()
+			h.Write([]byte(cfg.Name))
+			h.Write(prev)
+			ob, _ := json.Marshal(st.Op)
+			h.Write(ob)
+			h.Write(st.State)
+			out.Case(string(h.Sum(nil)))
+			prev = st.State
 		}
 		s.step = len(w.Steps)
 		s.finish()
@@ -1382,13 +1430,14 @@ func TestVerifC11Replay(t *testing.T) {
 		t.Fatalf("init: %v", err)
 	}
 	out := vfh.NewResult()
-	out.Rule = "distinct = distinct (instance, op, post-state) triples executed"
+	out.Rule = "distinct = distinct (instance, pre-state, op, post-state) transitions executed"
 	files, _ := filepath.Glob(filepath.Join(vfh.In(), "*.jsonl"))
 	sort.Strings(files)
 	if len(files) == 0 {
 		t.Fatalf("no behaviour files in %q", vfh.In())
 	}
 	only := os.Getenv("VERIF_C11_ONLY")
+	var jobs []func(t *testing.T)
 	for _, f := range files {
 		hdr, walks, err := vfh.LoadWalks(f)
 		if err != nil {
@@ -1401,8 +1450,15 @@ func TestVerifC11Replay(t *testing.T) {
 		if only != "" && cfg.Name != only {
 			continue
 		}
-		for _, w := range walks {
-			vfC11RunWalk(t, cfg, w, out)
+		// walks are independent (one bubble each): run them in parallel lanes
+		lanes := vfh.EnvInt("VERIF_C11_LANES", 6)
+		for k := 0; k < lanes; k++ {
+			k := k
+			jobs = append(jobs, func(t *testing.T) {
+				for i := k; i < len(walks); i += lanes {
+					vfC11RunWalk(t, cfg, walks[i], out)
+				}
+			})
 		}
 		if len(walks) > 0 && len(out.Samples) < 4 {
 			ops := []string{}
@@ -1415,6 +1471,12 @@ func TestVerifC11Replay(t *testing.T) {
 			out.Sample(map[string]any{"instance": cfg.Name, "walk": 0, "first_ops": ops})
 		}
 	}
+	t.Run("lanes", func(t *testing.T) {
+		for i, j := range jobs {
+			j := j
+			t.Run(fmt.Sprint(i), func(t *testing.T) { t.Parallel(); j(t) })
+		}
+	})
 	if err := out.Write(); err != nil {
 		t.Fatal(err)
 	}
